@@ -197,6 +197,15 @@ RichL(carrier) ==
     IN [L1 EXCEPT !.signed = SelectSeq(SignAll(L1), LAMBDA n : n # B("unsigned"))]
 RichB(carrier) == [Bundle0(carrier) EXCEPT !.L = RichL(carrier)]
 RichW(carrier) == MkX(RichL(carrier))
+\* three signed requests to tamper with (thorough): the rich one, one with UTF-8 / escapes / bare names, one in S3 mode
+MutBase(carrier, v) ==
+    CASE v = 1 -> RichB(carrier)
+      [] v = 2 -> [RichB(carrier) EXCEPT !.L.paramSep = B(","), !.L.path = B("/%E2%82%AC/a-c_~.x/"),
+                                        !.L.query = B("k=%E2%82%AC%20a&k=%2F&c=&a"), !.L.body = <<0, 255, 10>>]
+      [] v = 3 -> [RichB(carrier) EXCEPT !.cfg.s3 = TRUE, !.L.path = B("/a//c/./%7Ea/../x"), !.L.hasToken = FALSE, !.L.token = <<>>,
+                                        !.L.signed = SelectSeq(RichL(carrier).signed, LAMBDA n : n # B("x-amz-security-token"))]
+MutW(carrier, v) == MkX(MutBase(carrier, v).L)
+NumMutBase == IF Bound = 0 THEN 1 ELSE 3
 
 \* flattened byte positions of all header values of a wire: <<header index, position>>
 HdrPositions(w) == Cat([h \in 1..Len(w.headers) |-> [p \in 1..Len(w.headers[h][2]) |-> <<h, p>>]])
@@ -564,9 +573,12 @@ Dim(k) ==
       [] Family = "leak_scripts" -> V(<<1, 3, 1, 3, 4, 2>>, k)
       [] Family \in {"sigmut", "leak_sigmut"} -> V(<<2, 72>>, k)
       [] Family = "base"     -> V(IF Bound = 0 THEN <<2, 2, 3, 3, 3, 2, 2, 2>> ELSE <<2, 4, 6, 6, 5, 3, 2, 2>>, k)
-      [] Family = "mut_uri"  -> IF k = 1 THEN 2 ELSE IF k = 2 THEN Len(RichW(CarrierOf(idx[1])).uri) ELSE 0
-      [] Family = "mut_hdr"  -> IF k = 1 THEN 2 ELSE IF k = 2 THEN Len(HdrPositions(RichW(CarrierOf(idx[1])))) ELSE 0
-      [] Family = "mut_body" -> IF k = 1 THEN 2 ELSE IF k = 2 THEN Len(RichL("hdr").body) ELSE 0
+      [] Family = "mut_uri"  -> IF k = 1 THEN 2 ELSE IF k = 2 THEN NumMutBase
+                                ELSE IF k = 3 THEN Len(MutW(CarrierOf(idx[1]), idx[2]).uri) ELSE 0
+      [] Family = "mut_hdr"  -> IF k = 1 THEN 2 ELSE IF k = 2 THEN NumMutBase
+                                ELSE IF k = 3 THEN Len(HdrPositions(MutW(CarrierOf(idx[1]), idx[2]))) ELSE 0
+      [] Family = "mut_body" -> IF k = 1 THEN 2 ELSE IF k = 2 THEN NumMutBase
+                                ELSE IF k = 3 THEN Len(MutBase("hdr", idx[2]).L.body) ELSE 0
       [] Family = "mut_struct" -> V(<<2, NumStruct>>, k)
       [] Family = "mut_key"  -> V(<<2, 3>>, k)
       [] Family = "spell"    -> V(<<2, 3, NumSpell, 3>>, k)
@@ -637,14 +649,15 @@ BundleOf ==
                                   !.hasToken = Bool(idx[7]), !.token = IF Bool(idx[7]) THEN TokenV ELSE <<>>]
             IN [b EXCEPT !.L = [L1 EXCEPT !.signed = SignAll(L1)], !.cfg.s3 = Bool(idx[8])]
       [] Family = "mut_uri" ->
-            [RichB(CarrierOf(idx[1])) EXCEPT !.post = << [k |-> "uribyte", pos |-> idx[2]] >>]
+            [MutBase(CarrierOf(idx[1]), idx[2]) EXCEPT !.post = << [k |-> "uribyte", pos |-> idx[3]] >>]
       [] Family = "mut_hdr" ->
             LET c == CarrierOf(idx[1])
-                hp == HdrPositions(RichW(c))[idx[2]]
-            IN [RichB(c) EXCEPT !.post = << [k |-> "hdrbyte", h |-> hp[1], pos |-> hp[2]] >>]
+                hp == HdrPositions(MutW(c, idx[2]))[idx[3]]
+            IN [MutBase(c, idx[2]) EXCEPT !.post = << [k |-> "hdrbyte", h |-> hp[1], pos |-> hp[2]] >>]
       [] Family = "mut_body" ->
-            LET c == CarrierOf(idx[1]) IN
-            [RichB(c) EXCEPT !.post = << [k |-> "body", v |-> SetAt(RichL(c).body, idx[2], OtherByte(RichL(c).body[idx[2]]))] >>]
+            LET c == CarrierOf(idx[1])
+                bd == MutBase(c, idx[2]).L.body
+            IN [MutBase(c, idx[2]) EXCEPT !.post = << [k |-> "body", v |-> SetAt(bd, idx[3], OtherByte(bd[idx[3]]))] >>]
       [] Family = "mut_struct" ->
             LET c == CarrierOf(idx[1]) IN [RichB(c) EXCEPT !.post = StructMut(RichW(c), idx[2])]
       [] Family = "mut_key" ->
